@@ -1313,6 +1313,13 @@ private:
       err(TransportError::Config, "TLS listener requested but server TLS is not configured");
       return false;
     }
+    // A listener can only play the server role. TlsMode::Client here is still a
+    // request for TLS: refuse it instead of serving its connections in PLAINTEXT.
+    if (lc.tls == TlsMode::Client)
+    {
+      err(TransportError::Config, "TLS listener requested with TlsMode::Client (a listener needs TlsMode::Server)");
+      return false;
+    }
 
     int sfd = -1;
     sockaddr_storage ss{};
@@ -1484,9 +1491,14 @@ private:
     // caller asked for TLS and would send its data in the clear. Reported like
     // the other pre-insertion failures below (onClose for the sid already
     // returned by connect()).
-    if (cr.tls == TlsMode::Client && !_sslCli)
+    // An outgoing connection can only play the client role. TlsMode::Server here
+    // is still a request for TLS (and so is Client without a client context):
+    // refuse it instead of silently creating a PLAINTEXT session.
+    if (cr.tls == TlsMode::Server || (cr.tls == TlsMode::Client && !_sslCli))
     {
-      const std::string msg = "TLS connect requested but client TLS is not configured";
+      const std::string msg = cr.tls == TlsMode::Server
+                                ? "TLS connect requested with TlsMode::Server (connect needs TlsMode::Client)"
+                                : "TLS connect requested but client TLS is not configured";
       decltype(_cbs.onClose) closeCb;
       { std::lock_guard<std::mutex> g(_cbMutex); closeCb = _cbs.onClose; }
       if (closeCb) closeCb(cr.sid, TransportErrorInfo{TransportError::Config, msg});
